@@ -1,0 +1,26 @@
+//go:build verif
+
+package v2
+
+import (
+	"math/big"
+
+	"github.com/iotaledger/iota.go/consts"
+	"github.com/iotaledger/iota.go/trinary"
+)
+
+// VerifCheckStateTrits exposes checkStateTrits to the runtime monitors in /verif.
+func VerifCheckStateTrits(l, h *[consts.HashTrinarySize]uint, sufficientTrailing int, target *big.Int) int {
+	return checkStateTrits(l, h, sufficientTrailing, target)
+}
+
+// VerifToInt exposes toInt to the runtime monitors in /verif.
+func VerifToInt(trits trinary.Trits) *big.Int { return toInt(trits) }
+
+// VerifSufficientTrailingZeros exposes sufficientTrailingZeros to the runtime monitors in /verif.
+func VerifSufficientTrailingZeros(data []byte, targetScore uint64) int {
+	return sufficientTrailingZeros(data, targetScore)
+}
+
+// VerifTargetHash exposes targetHash to the runtime monitors in /verif.
+func VerifTargetHash(data []byte, targetScore uint64) *big.Int { return targetHash(data, targetScore) }
